@@ -15,7 +15,8 @@ from checks import scenarios
 PROP = "C14"
 LEVEL = "proof"
 THEOREMS = {"Proofs.Props.C14": ["MsPack.Cab.C14_chunk_independent", "MsPack.Cab.C14_never_hangs",
-                                 "MsPack.Cab.C14_sound", "MsPack.Cab.C14_finds_planted"]}
+                                 "MsPack.Cab.C14_sound", "MsPack.Cab.C14_finds_planted"],
+            "Proofs.Props.C14Multi": ["MsPack.Cab.C14_finds_all_planted", "MsPack.Cab.C14_finds_all_planted_rec", "MsPack.Cab.C14_two_planted"]}
 ASSUMPTIONS = ["fault-free host (read/seek never fail) in the theorems; host failures are C10's subject",
                "model of cabd_find/cabd_read_headers validated by differential execution"]
 RULE = ("cab.search: files = filler drawn from an alphabet rich in M,S,C,F (incl. partial signatures directly before a cabinet and fake 20-byte headers) "
